@@ -69,6 +69,8 @@ def svc_ok(label: str, strict: bool) -> bool:
 
 def inst_ok(i: str) -> bool:
     """instance label at most 63 bytes without control characters"""
+    if any(0xD800 <= ord(ch) <= 0xDFFF for ch in i):
+        return False  # a lone surrogate has no UTF-8 form: "at most 63 bytes" cannot hold, the name is not text
     return utf8len(i) <= 63 and not any(ord(ch) <= 0x1F or ord(ch) == 0x7F for ch in i)
 
 
